@@ -72,7 +72,7 @@ SLICES = {
     'se.personnummer': ((0, 2), (2, 4), (4, 6)),
 }
 TARGET_DATES = [(85, 2, 29), (0, 2, 29), (96, 2, 29), (4, 2, 29), (99, 12, 31), (0, 1, 1), (85, 0, 0), (85, 2, 30), (85, 4, 31),
-                (85, 13, 1), (85, 0, 15), (85, 6, 0), (0, 2, 28), (37, 12, 31), (58, 1, 1), (54, 1, 1), (53, 12, 31)]
+                (85, 13, 1), (85, 0, 15), (85, 6, 0), (0, 0, 1), (0, 0, 0), (0, 1, 0), (99, 0, 1), (0, 2, 28), (37, 12, 31), (58, 1, 1), (54, 1, 1), (53, 12, 31)]
 
 
 def shards(tier):
@@ -211,6 +211,9 @@ def check_number(name, mod, getters, v, x, viols, cells, clock=None):
         if o[0] != 'ok':
             continue
         val = o[1]
+        if gname == 'get_gender' and val is None and name in ('be.bis', 'be.ssn') and v[2:4].isdigit() and 40 <= int(v[2:4]) <= 52:
+            # BIS numbers: month + 40 means the gender is known (month + 20: unknown)
+            add(viols, 'C12|%s.get_gender|None-although-encoded' % name, '%s.get_gender(%r) is None but month field %s says the gender is known' % (name, x, v[2:4]), dict(w, getter=gname))
         if gname == 'get_gender' and val not in ('M', 'F') and not (val is None and name in ('be.bis', 'be.ssn', 'be.nn')):
             add(viols, 'C12|%s.get_gender|not-M-or-F' % name, '%s.get_gender(%r) = %r' % (name, x, val), dict(w, getter=gname))
         if name == 'mac' and gname == 'get_oui' and isinstance(val, str):
